@@ -266,6 +266,17 @@ def check(run):
     extra = [t2check.rerun(cfg, ops) for cfg, ops in C04.scenarios(run)]
     res_conn = t2check.run_t2(run, 120 if run.tier == 'quick' else 3000, 30, C04.PARTS, weights=C04.WEIGHTS, rf_weights=C04.RF,
                               extra_programs=extra, tag='C05conn')
+    if not run.violations:
+        # the window rule recomputed from the wire (acknowledged initial size + increments emitted - DATA received), on every stream
+        WR = ('advertised stream window differs', 'advertised connection window differs')
+        for pp in res_conn['programs']:
+            vs = [v for v in C04.oracle(pp) if v['rule'].startswith(WR)]
+            if vs:
+                v = min(vs, key=lambda x: x['step'])
+                run.violation({'kind': 'oracle', 'rule': v['rule'], 'detail': v['detail'], 'step': v['step'],
+                               'program': t2check.light(t2check.rerun(pp['cfg'], pp['ops'][:v['step'] + 1])),
+                               'how_to_replay': './check C04 --replay <this file>'})
+                break
     if res_conn['mismatches'] and not run.violations:
         t2check.report_mismatch(run, res_conn, C04.PARTS, oracle=None, tag='C05conn')
     cov = common.proof_coverage(r, extra_obligations=5)  # GenEq lemmas for the five window kernels
